@@ -98,9 +98,12 @@ def Hi(*parts) -> int:
 # ======================================================================================
 
 
-def _gen_array(rng):
+def _gen_array(rng, vast=False):
     h = rng.choice([1, 1, 2, 2, 3, 3, 4])
     w = rng.choice([1, 2, 2, 3, 3, 4, 5, 6])
+    if vast:
+        # puzzle-sized boards: thousands of candidate updates per step
+        h, w = rng.choice([(16, 16), (20, 20), (12, 30), (17, 17)])
     choice, default = rng.choice(
         [
             ([-1, 0, 1, 2], -1),
@@ -112,6 +115,8 @@ def _gen_array(rng):
             ([5, 7], 7),
         ]
     )
+    if vast:
+        choice, default = list(range(-1, rng.choice([6, 9, 10]))), -1
     symmetry = rng.random() < 0.4
     use_move = rng.random() < 0.3
     r = rng.random()
@@ -269,6 +274,10 @@ def generate(rng, tier, index):
         sc["score"] = sc["uniqueness"] = sc["pretest"] = sc["clue_penalty"] = None
         return sc
     sc["pattern"] = _gen_pattern(rng)
+    if rng.random() < 0.004:
+        sc["pattern"] = _gen_array(rng, vast=True)
+        sc["max_calls"] = rng.choice([2, 4])
+        sc["max_steps"] = 2
     shape = rng.choice(["vars", "array2d", "frame", "nested", "plain", "list_first", "deep", "list_first"])
     sc["solver"] = {
         "type": "fake",
@@ -349,7 +358,9 @@ def _valid_pattern(p):
 def valid(sc):
     try:
         if sc["kind"] == "prng":
-            return sc["test"] in ("randint", "choice", "shuffle", "random", "real_randint", "xorshift", "switch", "real_shuffle")
+            if sc["test"] == "shuffle_vary" and sc["n"] > (1 << sc["k"]):
+                return False  # randint(0, i) needs i + 1 <= raw output domain
+            return sc["test"] in ("randint", "choice", "shuffle", "shuffle_vary", "random", "real_randint", "xorshift", "switch", "real_shuffle")
         if sc["kind"] == "hashseed":
             return valid(sc["inner"])
         if sc["kind"] != "gen":
@@ -436,6 +447,8 @@ def _run_prng(sc, res):
         _prng_choice(sc, res, dr)
     elif t == "shuffle":
         _prng_shuffle(sc, res, dr)
+    elif t == "shuffle_vary":
+        _prng_shuffle_vary(sc, res, dr)
     elif t == "random":
         _prng_random(sc, res, dr)
     elif t == "real_randint":
@@ -582,6 +595,60 @@ def _prng_shuffle(sc, res, dr):
             )
             return
         res.nontrivial = n >= 3
+
+
+def _prng_shuffle_vary(sc, res, dr):
+    """Long lists, where the full script space cannot be enumerated: all raw outputs are held at a
+    fixed value except ONE, which runs over the whole reduced domain.  That output decides one uniform
+    choice, so among the outputs that are accepted (same number of draws as the baseline) every
+    resulting permutation must occur equally often."""
+    D = 1 << sc["k"]
+    n = sc["n"]
+    pos = sc["pos"]
+    fill = sc.get("fill", 0)
+    what = f"shuffle of {n} items on a raw output domain of {D}, raw output #{pos} varied"
+    with _RngSeam(D) as seam:
+        def once(x):
+            script = [fill] * (4 * n + 16)
+            if x is not None:
+                script[pos] = x
+            sq = seam.script(script)
+            seq = list(range(n))
+            dr.shuffle(seq)
+            return tuple(seq), sq.pos
+
+        try:
+            base_perm, base_draws = once(None)
+        except ScriptExhausted:
+            res.hit("degraded:shuffle_needs_more_raw_outputs_than_scripted")
+            return
+        except Exception as e:
+            res.violate("C19/shuffle-not-uniform", f"{what} raised {type(e).__name__}: {str(e)[:120]}")
+            return
+        if pos >= base_draws:
+            res.log("shuffle_vary", n, pos, "position not consumed")
+            return
+        counts = {}
+        for x in range(D):
+            res.steps += 1
+            try:
+                perm, draws = once(x)
+            except ScriptExhausted:
+                continue
+            if draws != base_draws:
+                continue  # rejected output: a re-draw shifted the rest of the script
+            if sorted(perm) != list(range(n)):
+                res.violate("C19/shuffle-not-uniform", f"{what}: result is not a permutation")
+                return
+            counts[perm] = counts.get(perm, 0) + 1
+        res.log("shuffle_vary", n, pos, sorted(counts.values())[:6], len(counts))
+        if len(set(counts.values())) > 1:
+            res.violate(
+                "C19/shuffle-not-uniform",
+                f"{what}: the accepted values of that output lead to {len(counts)} different permutations with unequal multiplicities {sorted(set(counts.values()))}",
+            )
+            return
+        res.nontrivial = len(counts) > 1
 
 
 def _prng_random(sc, res, dr):
@@ -1485,6 +1552,10 @@ def prng_scenarios(tier):
         out.append({"prop": ID, "kind": "prng", "test": "shuffle", "k": k, "n": n})
     if tier != "quick":
         out.append({"prop": ID, "kind": "prng", "test": "shuffle", "k": 3, "n": 5})
+    # long lists: one raw output varied at a time
+    for n, positions in ((1025, (0, 1, 2, 3)), (300, (0, 5)), (2049, (1,))) if tier == "quick" else ((1025, tuple(range(12))), (300, (0, 5, 50)), (2049, (0, 1, 2, 7)), (1500, (0, 3))):
+        for pos in positions:
+            out.append({"prop": ID, "kind": "prng", "test": "shuffle_vary", "k": 11 if n <= 2048 else 12, "n": n, "pos": pos, "fill": 0})
     return out
 
 
